@@ -120,7 +120,7 @@ CHECKS = {
     ),
     'C14': dict(
         level='exploration',
-        units=[U('^TestC14_Sketch$', (7, 600, 50), (8, 8000, 100)), U('^TestC14_Stores$', (7, 600, 50), (8, 8000, 100))],
+        units=[U('^TestC14_Sketch$', (6, 400, 40), (8, 8000, 100)), U('^TestC14_Stores$', (6, 400, 40), (8, 8000, 100))],
         essential_labels=['level:sketch', 'level:store', 'read:copy', 'read:merge-argument', 'read:encode', 'read:toproto', 'read:encodeproto', 'read:changemapping', 'read:store-reads', 'read:bins', 'copy-then-mutations-on-both-sides', 'mutation-after-read-on-buffered-paginated', 'variant:exact'],
         assumptions=COMMON_ASSUMPTIONS + ["aliasing between a returned protobuf message and the sketch is not asserted (the property speaks of the sketch's later answers)"],
     ),
